@@ -4,6 +4,11 @@ verus! {
 //@include prelude/axioms.rs
 //@include prelude/std_string.rs
 //@include prelude/utf8_facts.rs
+//@include prelude/error.rs
+//@include prelude/std_collect.rs
+//@include prelude/ring_stub.rs
+//@include prelude/crypto_types.rs
+//@include prelude/btree_keys.rs
 //@include prelude/serde_json_stub.rs
 //@include lemmas/cjson_spec.rs
 
@@ -36,36 +41,6 @@ spec fn abs(v: Value) -> JVal
             if 0 <= i < btree_keys(m).len() && m@.contains_key(btree_keys(m)[i]) { (btree_keys(m)[i]@, abs(m@[btree_keys(m)[i]])) } else { (Seq::empty(), JVal::Null) })),
     }
 }
-// the keys of a BTreeMap in iteration (= ascending) order  (assumed std contract of BTreeMap)
-pub uninterp spec fn btree_keys<K, V>(m: BTreeMap<K, V>) -> Seq<K>;
-pub open spec fn char_seq_lt(a: Seq<char>, b: Seq<char>) -> bool
-    decreases a.len()
-{
-    if b.len() == 0 { false } else if a.len() == 0 { true }
-    else if (a[0] as u32) < (b[0] as u32) { true } else if (a[0] as u32) > (b[0] as u32) { false }
-    else { char_seq_lt(a.drop_first(), b.drop_first()) }
-}
-#[verifier::external_body]
-pub proof fn fact_btree_keys<V>(m: BTreeMap<String, V>)
-    ensures btree_keys(m).no_duplicates(),
-            btree_keys(m).to_set() == m@.dom(),
-            btree_keys(m).len() == m@.dom().len(),
-            forall|i: int, j: int| 0 <= i < j < btree_keys(m).len() ==> char_seq_lt(#[trigger] btree_keys(m)[i]@, #[trigger] btree_keys(m)[j]@),
-{}
-// D22: `m.iter()` on a BTreeMap: yields the entries in the order of btree_keys(m)
-#[verifier::prophetic]
-pub open spec fn btree_iter_post<'a, V>(m: &'a BTreeMap<String, V>, it: std::collections::btree_map::Iter<'a, String, V>) -> bool {
-    let rem = vstd::std_specs::iter::IteratorSpec::remaining(&it);
-    &&& vstd::std_specs::iter::IteratorSpec::obeys_prophetic_iter_laws(&it)
-    &&& vstd::std_specs::iter::IteratorSpec::decrease(&it) is Some
-    &&& rem.len() == btree_keys(*m).len()
-    &&& forall|i: int| 0 <= i < rem.len() ==> *(#[trigger] rem[i]).0 == btree_keys(*m)[i] && m@.contains_key(btree_keys(*m)[i]) && *rem[i].1 == m@[btree_keys(*m)[i]]
-}
-#[verifier::external_body]
-fn btree_iter_sorted<'a, V>(m: &'a BTreeMap<String, V>) -> (it: std::collections::btree_map::Iter<'a, String, V>)
-    ensures btree_iter_post(m, it)
-{ m.iter() }
-
 impl Value {
 //@extract src/interchange/cjson/mod.rs impl:Value/fn:write props=C10,C05,C14
 //@subst D22 /obj\.iter\(\)/ => btree_iter_sorted(obj)
@@ -120,6 +95,152 @@ impl Value {
                             assert(decreases_to!(*self => self->Object_0));
                             assert(decreases_to!(*self => *v)); }
 //@end
+}
+
+// ---- convert: serde_json tree -> ordered tree (C10) ----
+spec fn abs_json(j: serde_json::Value) -> JVal
+    decreases j
+{
+    match j {
+        serde_json::Value::Null => JVal::Null,
+        serde_json::Value::Bool(b) => JVal::Bool(b),
+        serde_json::Value::Number(n) => match serde_json::num_i64(n) {
+            Some(i) => JVal::I64(i),
+            None => match serde_json::num_u64(n) { Some(u) => JVal::U64(u), None => JVal::Null },
+        },
+        serde_json::Value::String(s) => JVal::Str(s@),
+        serde_json::Value::Array(a) => JVal::Arr(Seq::new(a@.len(), |i: int| if 0 <= i < a@.len() { abs_json(a@[i]) } else { JVal::Null })),
+        serde_json::Value::Object(m) => JVal::Obj(Seq::new(btree_keys(m.inner).len(), |i: int|
+            if 0 <= i < btree_keys(m.inner).len() && m.inner@.contains_key(btree_keys(m.inner)[i]) { (btree_keys(m.inner)[i]@, abs_json(m.inner@[btree_keys(m.inner)[i]])) } else { (Seq::empty(), JVal::Null) })),
+    }
+}
+// the value contains a number that is neither an i64 nor a u64 (a float, or out of range)
+spec fn has_non_integer(j: serde_json::Value) -> bool
+    decreases j
+{
+    match j {
+        serde_json::Value::Number(n) => serde_json::num_i64(n) is None && serde_json::num_u64(n) is None,
+        serde_json::Value::Array(a) => exists|i: int| 0 <= i < a@.len() && has_non_integer(#[trigger] a@[i]),
+        serde_json::Value::Object(m) => exists|k: String| m.inner@.contains_key(k) && has_non_integer(#[trigger] m.inner@[k]),
+        _ => false,
+    }
+}
+//@extract src/interchange/cjson/mod.rs fn:convert props=C10,C05,C14
+//@subst G1 /\.map\(Number::I64\)/ => .map(|x: i64| -> (r: Number) ensures r == Number::I64(x) { Number::I64(x) })
+//@subst G1 /\.or_else\(\|\| (n\.as_u64\(\)\.map\(Number::U64\))\)/ => .or_else(|| -> (r: Option<Number>) ensures r == (match serde_json::num_u64(*n) { Some(u) => Some(Number::U64(u)), None => None }) { \1 })
+//@subst G1 /\.map\(Number::U64\)/ => .map(|x: u64| -> (r: Number) ensures r == Number::U64(x) { Number::U64(x) })
+//@subst G1 /\.map\(Value::Number\)/ => .map(|x: Number| -> (r: Value) ensures r == Value::Number(x) { Value::Number(x) })
+//@subst D21 /for res in arr\.iter\(\)\.map\(convert\) \{/ => for a in arr.iter() { let res = convert(a);
+//@contract ret=r
+    ensures
+        r is Err <==> has_non_integer(*jsn),          // [C10]
+        r is Ok ==> abs(r->Ok_0) == abs_json(*jsn),   // [C10,C05]
+    decreases jsn,
+//@before /match \*jsn \{/
+    proof { fact_string_ext(); fact_string_ord(); }
+//@loop 1 iter=it
+                invariant
+                    *jsn is Array && jsn->Array_0 == *arr,
+                    it.seq().len() == arr@.len(),
+                    forall|i: int| 0 <= i < arr@.len() ==> *(#[trigger] it.seq()[i]) == arr@[i],
+                    forall|i: int| 0 <= i < arr@.len() ==> decreases_to!(*jsn => #[trigger] arr@[i]),
+                    out@.len() == it.index(),
+                    forall|i: int| 0 <= i < it.index() ==> abs(#[trigger] out@[i]) == abs_json(arr@[i]),
+                    forall|i: int| 0 <= i < it.index() ==> !has_non_integer(#[trigger] arr@[i]),
+//@before /out\.push\(res\?\)/
+                proof { assert(*a == arr@[it.index() as int]); if res is Err { assert(has_non_integer(arr@[it.index() as int])); } }
+//@after_loop 1
+            proof {
+                assert(abs(Value::Array(out))->Arr_0 =~= abs_json(*jsn)->Arr_0);
+            }
+//@after_loop 2
+            proof {
+                assert forall|s: String| out@.contains_key(s) <==> obj.inner@.contains_key(s) by {
+                    if obj.inner@.contains_key(s) {
+                        assert(ks.to_set().contains(s));
+                        assert(ks.contains(s));
+                        let i = choose|i: int| 0 <= i < ks.len() && ks[i] == s;
+                        assert(ks[i] == s);
+                    }
+                }
+                assert(out@.dom() =~= obj.inner@.dom());
+                fact_btree_keys_unique(out, obj.inner);
+                assert(abs(Value::Object(out))->Obj_0 =~= abs_json(*jsn)->Obj_0);
+                assert forall|k: String| obj.inner@.contains_key(k) implies !has_non_integer(#[trigger] obj.inner@[k]) by {
+                    assert(ks.to_set().contains(k));
+                    assert(ks.contains(k));
+                    let i = choose|i: int| 0 <= i < ks.len() && ks[i] == k;
+                    assert(!has_non_integer(obj.inner@[ks[i]]));
+                }
+            }
+//@before /let mut out = BTreeMap::new\(\);/
+            let ghost ks = btree_keys(obj.inner);
+            proof {
+                fact_btree_keys(obj.inner);
+                assert forall|i: int| 0 <= i < ks.len() implies obj.inner@.contains_key(#[trigger] ks[i]) by {
+                    assert(ks.contains(ks[i]));
+                    assert(ks.to_set().contains(ks[i]));
+                }
+            }
+//@loop 2 iter=it
+                invariant
+                    forall|a: String, b: String| #![trigger a@, b@] a@ == b@ ==> a == b,
+                    vstd::std_specs::btree::key_obeys_cmp_spec::<String>(),
+                    *jsn is Object && jsn->Object_0 == *obj,
+                    ks == btree_keys(obj.inner),
+                    ks.no_duplicates(),
+                    it.seq().len() == ks.len(),
+                    forall|i: int| 0 <= i < it.seq().len() ==> *(#[trigger] it.seq()[i]).0 == ks[i],
+                    forall|i: int| 0 <= i < ks.len() ==> obj.inner@.contains_key(#[trigger] ks[i]),
+                    forall|i: int| 0 <= i < it.seq().len() ==> *(#[trigger] it.seq()[i]).1 == obj.inner@[ks[i]],
+                    forall|i: int| 0 <= i < ks.len() ==> decreases_to!(*jsn => obj.inner@[#[trigger] ks[i]]),
+                    forall|s: String| #[trigger] out@.contains_key(s) <==> exists|i: int| 0 <= i < it.index() && #[trigger] ks[i] == s,
+                    forall|i: int| 0 <= i < it.index() ==> abs(out@[#[trigger] ks[i]]) == abs_json(obj.inner@[ks[i]]),
+                    forall|i: int| 0 <= i < it.index() ==> !has_non_integer(obj.inner@[#[trigger] ks[i]]),
+//@end
+
+//@extract src/interchange/cjson/mod.rs fn:canonicalize props=C10,C05,C14
+//@contract ret=r
+    ensures
+        r is Err <==> has_non_integer(*jsn),                  // [C10]
+        r is Ok ==> r->Ok_0@ == enc(abs_json(*jsn)),          // [C10,C05]
+//@end
+
+// C10: object members are written in strictly ascending code-point order of their keys
+spec fn members_sorted(j: JVal) -> bool
+    decreases j
+{
+    match j {
+        JVal::Arr(a) => forall|i: int| 0 <= i < a.len() ==> members_sorted(#[trigger] a[i]),
+        JVal::Obj(o) => (forall|i: int, k: int| 0 <= i < k < o.len() ==> char_seq_lt(#[trigger] o[i].0, #[trigger] o[k].0))
+            && forall|i: int| 0 <= i < o.len() ==> members_sorted((#[trigger] o[i]).1),
+        _ => true,
+    }
+}
+proof fn lemma_abs_json_sorted(j: serde_json::Value)   // [C10]
+    ensures members_sorted(abs_json(j))
+    decreases j
+{
+    match j {
+        serde_json::Value::Array(a) => {
+            assert forall|i: int| 0 <= i < a@.len() implies members_sorted(#[trigger] abs_json(j)->Arr_0[i]) by {
+                lemma_abs_json_sorted(a@[i]);
+            }
+        }
+        serde_json::Value::Object(m) => {
+            let ks = btree_keys(m.inner);
+            fact_btree_keys(m.inner);
+            assert forall|i: int| 0 <= i < ks.len() implies m.inner@.contains_key(#[trigger] ks[i]) by {
+                assert(ks.contains(ks[i]));
+                assert(ks.to_set().contains(ks[i]));
+            }
+            let o = abs_json(j)->Obj_0;
+            assert forall|i: int| 0 <= i < o.len() implies members_sorted((#[trigger] o[i]).1) by {
+                lemma_abs_json_sorted(m.inner@[ks[i]]);
+            }
+        }
+        _ => {}
+    }
 }
 } // verus!
 fn main() {}
